@@ -119,6 +119,8 @@ def run_split(c):
         cls.append("after-a-refused-request")
     if split and r < 2 and n > len(refinable0):
         cls.append("count-driven-with-r<2")
+    if any(max((e[2] - e[0]) / (e[3] - e[1]), (e[3] - e[1]) / (e[2] - e[0])) > 64 * Fr(r) for e, _ in before):
+        cls.append("region-needing-7+-halvings")
     return dict(nt=split, cls=cls)
 
 
@@ -154,6 +156,15 @@ def run_grid(c):
 @st.composite
 def split_s(draw):
     c = draw(D.die_case(max_regions=5, units=SPLIT_UNITS))
+    if draw(_i(0, 7)) == 0:
+        # a long thin die (or a die whose free area is a long thin strip): many successive halvings are needed
+        a, b = draw(_i(1, 2)), draw(_i(100, 600))
+        c = dict(unit=draw(st.sampled_from(["1", "0.5", "0.1", "2"])), W=a, H=b, regions=[], fixed=[])
+        if draw(st.booleans()):
+            c["W"], c["H"] = b, a
+        elif draw(st.booleans()):
+            c["W"] = a + 40
+            c["regions"] = [[a, 0, a + 40, b, draw(st.sampled_from(["#", "A"]))]]
     if draw(st.booleans()):
         c["r"] = draw(st.sampled_from([1.42, 1.42, 1.45, 1.5, 1.6, 1.75, 1.9, 1.99, 1.4151]))
     else:
@@ -177,6 +188,6 @@ def grid_s(draw):
 def subchecks():
     return [
         Sub("split", run_split, strategy=split_s(), n_quick=12000, n_thorough=300000, fuzz_thorough=6000,
-            required=("r<2", "specialised", "split", "count-driven-with-r<2", "tiny-die", "after-a-refused-request")),
+            required=("r<2", "specialised", "split", "count-driven-with-r<2", "tiny-die", "after-a-refused-request", "region-needing-7+-halvings")),
         Sub("grid", run_grid, strategy=grid_s(), n_quick=3000, n_thorough=60000, fuzz_thorough=1500, required=("rows!=cols", "square-grid")),
     ]
